@@ -75,6 +75,12 @@ func genC04(seed uint64, run int, tier string) Scenario {
 		// remembers having acquired, so the session never starts in one of them
 		twinA, twinB = g.addTwin(tree)
 	}
+	loose := ""
+	if r.IntN(4) == 0 {
+		// one level whose pattern also matches other levels' prompts and excludes them by its
+		// not-contains list
+		loose = g.loosen(tree)
+	}
 	sc.Privs = tree.Specs
 	sc.DefaultPriv = tree.Default
 	sc.Secondary = tree.Secret
@@ -90,8 +96,15 @@ func genC04(seed uint64, run int, tier string) Scenario {
 		nops = between(r, 3, 6)
 	}
 	qn := 0
+	prevLeft := false
 	for i := 0; i < nops; i++ {
 		op := OpSpec{Kind: pick(r, "acquire", "acquire", "netsend", "netsendmulti", "netconfigs", "netconfig", "netinteractive", "acquire-unknown", "netconfigsfile", "netsendfile")}
+		if prevLeft && op.Kind == "netinteractive" {
+			// (an interactive skips the privilege check when the remembered level is the wanted one,
+			// and the previous operation left its level behind the driver's back)
+			op.Kind = "netconfigs"
+		}
+		prevLeft = false
 		switch op.Kind {
 		case "acquire":
 			op.Target = tree.Names[r.IntN(len(tree.Names))]
@@ -123,6 +136,18 @@ func genC04(seed uint64, run int, tier string) Scenario {
 				target.Cmds[c] = &peer.Reply{Out: toks}
 				op.Cmds = append(op.Cmds, c)
 				op.Lines = append(op.Lines, lines)
+			}
+			if tp := tree.Parent[target.Name]; tp != "" && target.Name != tree.Default && r.IntN(5) == 0 {
+				// the batch ends with the command that leaves the level again ("end"): whatever
+				// comes next must find its level by itself
+				for _, ps := range tree.Specs {
+					if ps.Name == target.Name {
+						op.Cmds = append(op.Cmds, ps.Deescalate)
+						op.Lines = append(op.Lines, nil)
+					}
+				}
+				op.Leaves = true
+				prevLeft = true
 			}
 		case "netinteractive":
 			target := def
@@ -159,6 +184,9 @@ func genC04(seed uint64, run int, tier string) Scenario {
 	sc.Class = fmt.Sprintf("network/tree%d", len(parents))
 	if twinA != "" {
 		sc.Class += "/twin"
+	}
+	if loose != "" {
+		sc.Class += "/not-contains"
 	}
 	sc.CutEnum = pickCutEnum(run, 8)
 	if r.IntN(6) == 0 {
@@ -340,6 +368,10 @@ func runC04(env *Env, s Scenario) {
 			if l.Line == sc.Secondary && !strings.HasPrefix(l.Mode, "pw:") {
 				env.Fail("secret-at-command-prompt", "", "op %d: the secondary secret arrived while the device was in mode %s", i, l.Mode)
 			}
+		}
+		if op.Leaves {
+			target = parentOf(sc)[target]
+			env.Probe("batch-leaves-its-level")
 		}
 		if rec.DevMode != target {
 			env.Fail("wrong-final-level", op.Kind, "op %d (%s): device ended at %s, want %s", i, op.Kind, rec.DevMode, target)
